@@ -401,6 +401,9 @@ bool ZCK_PUBLIC_API zck_close(zckCtx *zck) {
     VALIDATE_BOOL(zck);
 
     if(zck->mode == ZCK_MODE_WRITE) {
+        /* The final chunk must be flushed even if it's smaller than the
+         * configured minimum chunk size, otherwise its data is lost */
+        zck->chunk_min_size = 0;
         if(zck_end_chunk(zck) < 0)
             return false;
         if(!header_create(zck))
